@@ -112,9 +112,10 @@ Lemma on_retract_response_tot s w ids : LI s -> exists s', on_retract_response s
 Proof.
   intros HL. unfold on_retract_response. destruct (retract_response_states (core_of s) w ids []) as [c' groups] eqn:Er.
   destruct (rrs_GP w ids _ _ _ _ (li_wi _ HL) (fun tg l (H : In (tg, l) []) => match H with end) Er) as [G E].
-  apply send_redirected_tot.
+  destruct (send_redirected_tot groups (st_core s c')) as (s2 & ->).
   - intros w0 Hw0. cbn [core_of st_core with_core s_core fst] in Hw0. rewrite E in Hw0. exact (PI_PWc _ (li_pi _ HL) w0 Hw0).
   - exact G.
+  - cbn [bind]. destruct (retract_wakes _ _ _ _); eexists; reflexivity.
 Qed.
 
 (** * [task_running] *)
